@@ -90,13 +90,20 @@ package asr
 // randomlyResolveNodeStates keeps one of the retained states, drawn with math/rand: rewrites state counts only (thin)
 //@ func asr.randomlyResolveNodeStates
 //@   requires node != nil
+//@   entry [the_node_has_a_sequence] 0 <= node.id && node.id < len(seqs) && seqs[node.id] != nil
 //@   assigns elems("float64"), ghost(rand_count), ghost(rand_last), ghost(rand_range)
+//@   call math/rand.Intn [one_draw_per_site_among_exactly_the_possible_states_and_only_when_there_are_several] a0 == numstates && numstates > 1
 //@   loop 1
 //@     complete [all_iterations_no_early_exit]
+//@     invariant [every_site_keeps_its_own_storage] forall a *AncestralState :: {a.counts} allocated(a) && !fresh(a) ==> a.counts == old(a.counts)
 //@   loop 2
 //@     complete [all_iterations_no_early_exit]
+//@     invariant [every_site_keeps_its_own_storage] forall a *AncestralState :: {a.counts} allocated(a) && !fresh(a) ==> a.counts == old(a.counts)
+//@     step [a_state_is_possible_when_its_count_is_at_least_one] next(numstates) == numstates + (ances.counts[rangeindex + 1] >= 1.0 ? 1 : 0)
 //@   loop 3
 //@     complete [all_iterations_no_early_exit]
+//@     invariant [every_site_keeps_its_own_storage] forall a *AncestralState :: {a.counts} allocated(a) && !fresh(a) ==> a.counts == old(a.counts)
+//@     step [only_the_drawn_one_among_the_possible_states_is_kept] next(curstate) == curstate + (atHead(ances.counts[rangeindex + 1]) >= 1.0 ? 1 : 0) && ances.counts[rangeindex + 1] == ((atHead(ances.counts[rangeindex + 1]) >= 1.0 && curstate == randstate) ? 1.0 : 0.0)
 
 // ---------------------------------------------------------------------------
 // DELTRAN, sequences (property C12): at every site a non-root inner node keeps exactly the states it shares with its
